@@ -36,6 +36,8 @@ def main(argv=None):
     try:
         mod = load_prop(a.prop)
         ts = mod.tasks(a.tier, seed)
+        from .contracts import callsites
+        ts = callsites.extend(ts)        # call-site contracts of kv-level callees under contract: conformance + the callee's own proof
         if a.only:
             ts = [t for t in ts if a.only in t[0].__name__ or a.only in repr(t[1])]
         obs, errs = report.run_tasks(ts, a.workers)
